@@ -3,7 +3,7 @@ use crate::json::{s, J};
 use crate::report::Report;
 use crate::s_ops::*;
 use crate::s_props::*;
-use crate::s_ref::SrcKind;
+use crate::s_ref::{LibSrc, SrcKind};
 use crate::s_run::Act;
 use crate::s_val::*;
 use std::sync::atomic::AtomicBool;
@@ -34,6 +34,10 @@ fn c02_worlds(max_items: usize, values: &[i64]) -> Vec<World> {
   w
 }
 
+fn lib_worlds(n_subs: usize) -> Vec<World> {
+  LibSrc::all().into_iter().map(|l| World { srcs: vec![SrcKind::Lib(l)], acts: (0..n_subs).map(Act::Sub).collect() }).collect()
+}
+
 fn run_families(prop: &str, r: &mut Report, fams: Vec<(Family, usize)>) {
   let stop = AtomicBool::new(false);
   let mut per = vec![];
@@ -60,8 +64,12 @@ pub fn check(prop: &str, tier: &str) -> Option<Report> {
     "C02" => {
       let w1 = Arc::new(c02_worlds(if th { 5 } else { 4 }, &[1, 2, 3]));
       let w2 = Arc::new(c02_worlds(3, &[1, 2, 3]));
+      let wl = Arc::new(lib_worlds(1));
+      let mut with_src = vec![Node::Src(0)];
+      with_src.extend(depth1(&last_pos));
       let mut fams = vec![
         (Family { name: "creation functions".into(), pipelines: vec![], worlds: w1.clone(), oracles: vec![] }, 0),
+        (Family { name: "creation functions (just, from_iter, range, empty, never, error, defer, start, from_result, repeat, Something), alone and below every operator".into(), pipelines: with_src, worlds: wl, oracles: vec![Oracle::Functional] }, 1),
         (Family { name: "depth 1".into(), pipelines: depth1(&last_pos), worlds: w1.clone(), oracles: vec![Oracle::Functional] }, 1),
         (Family { name: "depth 2".into(), pipelines: depth2(&single, &last_pos), worlds: w2.clone(), oracles: vec![Oracle::Functional] }, 2),
       ];
@@ -89,6 +97,9 @@ pub fn check(prop: &str, tier: &str) -> Option<Report> {
         (Family { name: "depth 1".into(), pipelines: depth1(&last_pos), worlds: w.clone(), oracles: vec![Oracle::Contract] }, 1),
         (Family { name: "depth 2".into(), pipelines: depth2(&single, &last_pos), worlds: if th { w.clone() } else { w_small.clone() }, oracles: vec![Oracle::Contract] }, 2),
       ];
+      let mut with_src = vec![Node::Src(0)];
+      with_src.extend(depth1(&last_pos));
+      fams.push((Family { name: "creation functions, alone and below every operator".into(), pipelines: with_src, worlds: Arc::new(lib_worlds(1)), oracles: vec![Oracle::Contract] }, 1));
       fams.extend(multi_families(th, true, vec![Oracle::Contract]));
       if th {
         fams.push((Family { name: "depth 3 (reduced catalogue)".into(), pipelines: depth3(&reduced_ops()), worlds: w_small, oracles: vec![Oracle::Contract] }, 3));
@@ -96,7 +107,21 @@ pub fn check(prop: &str, tier: &str) -> Option<Report> {
       run_families(prop, &mut r, fams);
     }
     "C03" => {
-      let fams = multi_families(th, false, vec![Oracle::Functional]);
+      let mut fams = multi_families(th, false, vec![Oracle::Functional]);
+      // utils::ready_set_go: subscribe first, then run the action that emits into the source
+      let rsg: Vec<Node> = wf_scripts(&[1, 2], 3, &[Ending::Complete, Ending::Error, Ending::Silent])
+        .into_iter()
+        .flat_map(|sc| {
+          let base = Node::op(Op::ReadySetGo(sc.clone()), Node::Src(0));
+          vec![base.clone(), Node::op(Op::Take(2), base.clone()), Node::op(Op::Map(MapF::Inc), base)]
+        })
+        .collect();
+      let mut w_rsg = vec![];
+      for k in [SrcKind::Subject, SrcKind::Hot] {
+        w_rsg.push(World { srcs: vec![k.clone()], acts: vec![Act::Sub(0)] });
+        w_rsg.push(World { srcs: vec![k.clone()], acts: vec![Act::Sub(0), Act::Emit(0, Ev::n(3)), Act::Emit(0, Ev::C)] });
+      }
+      fams.push((Family { name: "ready_set_go: nothing the action emits is missed".into(), pipelines: rsg, worlds: Arc::new(w_rsg), oracles: vec![Oracle::Functional] }, 1));
       run_families(prop, &mut r, fams);
     }
 
@@ -210,6 +235,17 @@ pub fn check(prop: &str, tier: &str) -> Option<Report> {
         // long cold script
         w.push(cold_world(vec![Ev::n(1), Ev::n(2), Ev::n(1), Ev::n(2), Ev::n(3), Ev::n(1), Ev::C], true));
       }
+      if prop == "C05" {
+        // dropping a utils::Using guard instead of calling unsubscribe
+        let using: Vec<World> = w
+          .iter()
+          .filter(|x| x.acts.iter().filter(|a| matches!(a, Act::Unsub(_))).count() == 1)
+          .map(|x| World { srcs: x.srcs.clone(), acts: x.acts.iter().map(|a| if let Act::Unsub(r) = a { Act::UsingDrop(*r) } else { a.clone() }).collect() })
+          .collect();
+        w.extend(using);
+      } else {
+        w.extend(lib_worlds(1));
+      }
       // the same histories with the crate's own Subject as the hot source
       let subj: Vec<World> = w
         .iter()
@@ -273,7 +309,8 @@ fn offset(script: &[Ev], off: i64) -> Vec<Ev> {
 /// time) and mixtures; with one C02 operator below or above.
 pub fn multi_families(th: bool, rude: bool, oracles: Vec<Oracle>) -> Vec<(Family, usize)> {
   let mut fams = vec![];
-  let ops = multi_ops();
+  let needs_reference = oracles.iter().any(|o| matches!(o, Oracle::Functional | Oracle::Teardown | Oracle::Independence));
+  let ops = if needs_reference { multi_ops() } else { multi_ops_all() };
   let per_src: Vec<Vec<Ev>> = if rude {
     let alpha = vec![Ev::n(1), Ev::E(5), Ev::C];
     strings(&alpha, if th { 3 } else { 2 })
@@ -440,6 +477,12 @@ fn c14_families(th: bool, single: &[Op], last_pos: &[Op]) -> Vec<(Family, usize)
   let w_hot_small: Arc<Vec<World>> = Arc::new(w_hot.iter().step_by(if th { 1 } else { 4 }).cloned().collect());
   fams.push((Family { name: "cold source, 2-3 subscriptions, depth 2".into(), pipelines: depth2(single, last_pos), worlds: w_seq_small, oracles: vec![Oracle::Independence] }, 2));
   fams.push((Family { name: "hot source, second subscription mid-stream, depth 2".into(), pipelines: depth2(single, last_pos), worlds: w_hot_small, oracles: vec![Oracle::Independence] }, 2));
+  // (a') the creation functions subscribed 2 and 3 times (defer / start call their function per subscription)
+  let mut wl = lib_worlds(2);
+  wl.extend(lib_worlds(3));
+  let mut with_src = vec![Node::Src(0)];
+  with_src.extend(depth1(last_pos));
+  fams.push((Family { name: "creation functions subscribed 2-3 times, alone and below every operator".into(), pipelines: with_src, worlds: Arc::new(wl), oracles: vec![Oracle::Independence] }, 1));
   // (c) every operator under retry: attempts differ
   let attempts: Vec<Vec<Ev>> = vec![vec![Ev::E(1)], vec![Ev::n(1), Ev::E(2)], vec![Ev::n(1), Ev::n(2), Ev::E(3)], vec![Ev::n(2), Ev::C], vec![Ev::C], vec![Ev::n(1), Ev::n(1), Ev::C]];
   let mut w_retry = vec![];
